@@ -3,7 +3,8 @@ import Rpft.Flow
 import Rpft.Bisim
 import Rpft.FlowSys
 import Rpft.RefFlow
-namespace Rpft.Drv
+namespace Rpft.Drv.FlowD
+open Rpft.Drv
 open Lean Rpft Rpft.Flow Rpft.Bisim Rpft.RefFlow
 
 def optStrOf (j : Json) (k : String) : Option Str :=
@@ -189,4 +190,4 @@ def handleFlow (op : String) (j : Json) : Except String Json := do
     pure (Json.arr ((traceAlong (sysOf lvl f) (start f) path).map obsJ).toArray)
   | _ => throw s!"unknown op {op}"
 
-end Rpft.Drv
+end Rpft.Drv.FlowD
